@@ -102,12 +102,21 @@ func VerifC21_sentinel() {
 	if hasPred {
 		c.mOpt.SendToReplicas = verifPredicate(cs, optIn)
 	}
-	kind := verifChoose(3)
+	kind := verifChoose(6)
 	switch {
 	case kind == 0 && n == 1:
 		c.Do(context.Background(), cs[0])
 	case kind == 1:
 		c.DoMulti(context.Background(), cs...)
+	case kind == 3 && n == 1:
+		c.DoStream(context.Background(), cs[0])
+		verifReach("stream")
+	case kind == 4 && n == 1:
+		c.Receive(context.Background(), cs[0], func(PubSubMessage) {})
+		verifReach("receive")
+	case kind == 5:
+		c.DoMultiStream(context.Background(), cs...)
+		verifReach("multistream")
 	default:
 		cts := make([]CacheableTTL, n)
 		for i := range cts {
@@ -119,8 +128,8 @@ func VerifC21_sentinel() {
 	for i := 0; i < n; i++ {
 		all = all && optIn[i]
 	}
-	verifAssert(len(mc.log)+len(rc.log) == n, "the whole call goes to exactly one node")
-	if len(rc.log) > 0 {
+	verifAssert(len(mc.log)+len(rc.log)+len(mc.slog)+len(rc.slog) == n, "the whole call goes to exactly one node")
+	if len(rc.log)+len(rc.slog) > 0 {
 		verifAssert(c.replica || all, "a replica is used only for ReplicaOnly clients or when SendToReplicas opts in every command")
 		verifReach("replica")
 	} else {
